@@ -22,7 +22,8 @@ RULE = (
     "node with fresh names, swap an initializer's tensor for Tensor/PackedTensor/LazyTensor/StringTensor/ExternalTensor, "
     "drop type+shape of a value, rename value/node to a fresh name, resize inputs (None) / outputs ('' name), remove an "
     "unused node, edit doc strings and metadata, replace_all_uses_with, add a nested graph capturing outer values, device annotations on nodes of any graph "
-    "(IR>=11), tensor metadata edits (clear/pop/add), an inner value shadowing the name of an outer value it does not see. "
+    "(IR>=11), tensor metadata edits (clear/pop/add), an inner value shadowing the name of an outer value it does not see, "
+    "tied weights (one tensor object as const_value of two differently named initializers of one graph). "
     "Only name-valid end states are generated (fresh names are unique model-wide; a value with a shape has a type). "
     "Non-trivial = >=3 nodes and >=1 of: nested graph with captured value, function, unsorted order, optional "
     "input/output, non-proto tensor class. distinct = case JSON."
